@@ -358,6 +358,43 @@ def rule_R15(text, deltas):
     raise AssembleError('R15 does not apply (no `for I in (A..B).rev() {`)')
 
 
+def rule_R16(text, deltas):
+    """`X.extend(IT.map(|PAT| E));`  ->  `for verif_it in IT { let PAT = verif_it; X.push(E); }`
+    (Vec::extend over a Map adapter is the push loop; Verus has no spec for iterator adapters)"""
+    toks = code_tokens(text)
+    T = lambda j: text[toks[j][1]:toks[j][2]]
+    for j in range(len(toks) - 8):
+        if toks[j][0] == 'ident' and T(j + 1) == '.' and T(j + 2) == 'extend' and T(j + 3) == '(':
+            c = match_close(text, toks, j + 3)
+            if T(c + 1) != ';' or T(c - 1) != ')':
+                continue
+            # the last call inside must be `.map(|PAT| E)`
+            k = c - 1
+            # find the '(' matching toks[k]
+            o = None
+            for q in range(j + 4, k):
+                if T(q) == '(' and match_close(text, toks, q) == k:
+                    o = q; break
+            if o is None or T(o - 1) != 'map' or T(o - 2) != '.' or T(o + 1) != '|':
+                continue
+            b = o + 2
+            while b < k and T(b) != '|':
+                b += 1
+            if b >= k:
+                continue
+            pat = text[toks[o + 1][2]:toks[b][1]].strip()
+            expr = text[toks[b][2]:toks[k][1]].strip()
+            it = text[toks[j + 3][2]:toks[o - 2][1]].strip()
+            x = T(j)
+            a, z = toks[j][1], toks[c + 1][2]
+            ind = text[text.rfind('\n', 0, a) + 1:a]
+            ind = ind if not ind.strip() else ''
+            new = 'for verif_it in %s {\n%s    let %s = verif_it;\n%s    %s.push(%s);\n%s}' % (it, ind, pat, ind, x, expr, ind)
+            deltas.append(dict(rule='R16', original=text[a:z], rewritten=new))
+            return text[:a] + new + text[z:]
+    raise AssembleError('R16 does not apply (no `X.extend(IT.map(|PAT| E));`)')
+
+
 def name_return(sig, binder):
     """`-> T` -> `-> (binder: T)`"""
     toks = code_tokens(sig)
@@ -448,6 +485,8 @@ def expand_fn(fs, assumed_override=False, notes=None):
             body = rule_R3c(body, deltas)
         if 'R15' in fs.rules:
             body = rule_R15(body, deltas)
+        if 'R16' in fs.rules:
+            body = rule_R16(body, deltas)
         for (rule, frm, to, cnt) in fs.subs:
             k = body.count(frm)
             if cnt == 'last' and k >= 1:
@@ -523,6 +562,11 @@ def expand_fn(fs, assumed_override=False, notes=None):
                     continue
                 ln0 = blines[li]
                 st = ln0.strip()
+                # drop a trailing line comment
+                for (kk, aa, bb) in tokenize(st):
+                    if kk == 'comment' and st[aa:bb].startswith('//'):
+                        st = st[:aa].rstrip()
+                        break
                 ind = ln0[:len(ln0) - len(ln0.lstrip())]
                 if st.startswith('return ') and st.endswith(';'):
                     ex = st[len('return '):-1]
@@ -530,14 +574,26 @@ def expand_fn(fs, assumed_override=False, notes=None):
                     deltas.append(dict(rule='Rtail', original=st, rewritten='{ let verif_tail = %s; <ghost> return verif_tail; }' % ex))
                     continue
                 if st.endswith('{') or st.endswith('('):
-                    # multi-line tail expression: it runs to the end of the function body
-                    last = len(blines) - 1
-                    while last > li and blines[last].strip() in ('', '}'):
-                        last -= 1
-                    # blines[-1] holds the closing brace of the fn; everything from li..last is the expression
-                    expr = '\n'.join(blines[li:last + 1])
-                    if blines[last + 1:] and ''.join(x.strip() for x in blines[last + 1:]) != '}':
+                    # multi-line tail expression: it runs to the bracket that closes the one opened on this line
+                    # and must be the last thing in its block (next code line starts with `}`)
+                    depth = 0
+                    last = None
+                    for q in range(li, len(blines)):
+                        for (kk, aa, bb) in tokenize(blines[q]):
+                            if kk in ('ws', 'comment'):
+                                continue
+                            t = blines[q][aa:bb]
+                            if t in ('{', '(', '['):
+                                depth += 1
+                            elif t in ('}', ')', ']'):
+                                depth -= 1
+                        if depth <= 0:
+                            last = q
+                            break
+                    nxt = [x.strip() for x in blines[(last or 0) + 1:] if x.strip()]
+                    if last is None or depth != 0 or not blines[last].strip().endswith(('}', ')')) or not nxt or not nxt[0].startswith('}'):
                         raise AssembleError('%s: //@tail `%s`: cannot delimit the multi-line tail expression' % (where, arg))
+                    expr = '\n'.join(blines[li:last + 1])
                     blines[li] = '%slet verif_tail = %s;\n%s\n%sverif_tail' % (ind, expr.strip(), block, ind)
                     for q in range(li + 1, last + 1):
                         blines[q] = ''
